@@ -39,7 +39,7 @@ fn run_counts(property: &str) -> (u64, u64) {
     // quick: about 20-30 s on 16 cores; thorough: bounded by the wall-clock budget (600 s) rather than by the count
     match property {
         "C01" => (8000, 400_000),
-        "C05" => (1500, 60_000),
+        "C05" => (4000, 100_000),
         "C06" => (2400, 100_000),
         "C08" | "C12" => (3000, 100_000),
         "C13" | "C14" | "C15" | "C19" => (6000, 200_000),
